@@ -53,28 +53,31 @@ def solve(assertions, timeout_ms=60000, want_model=True):
 def solve_quantified(assertions, timeout_ms=60000, want_model=True):
     """Quantified queries: plain z3 (MBQI) first, then quantifier elimination front ends. The first
     definite verdict wins; `unknown` only if every route is inconclusive."""
-    routes = [lambda: z3.Solver(), lambda: z3.Then("qe2", "smt").solver(), lambda: z3.Then("qe", "smt").solver()]
-    last = "unknown"
+    routes = [lambda: z3.Then("qe2", "smt").solver(), lambda: z3.Solver(), lambda: z3.Then("qe", "smt").solver()]
     total = 0.0
-    for mk in routes:
-        try:
-            s = mk()
-            s.set("timeout", timeout_ms)
-            s.add(assertions)
-            t0 = time.perf_counter()
-            r = s.check()
-            dt = time.perf_counter() - t0
-        except z3.Z3Exception:
-            continue
-        total += dt
-        STATS["queries"] += 1
-        STATS["solver_s"] += dt
-        STATS[str(r)] += 1
-        if r == z3.sat:
-            return "sat", (s.model() if want_model else None), total
-        if r == z3.unsat:
-            return "unsat", None, total
-    return last, None, total
+    # short slices first (one of the routes is usually immediate), then the full budget
+    for budget in (min(4000, timeout_ms), timeout_ms):
+        for mk in routes:
+            try:
+                s = mk()
+                s.set("timeout", budget)
+                s.add(assertions)
+                t0 = time.perf_counter()
+                r = s.check()
+                dt = time.perf_counter() - t0
+            except z3.Z3Exception:
+                continue
+            total += dt
+            STATS["queries"] += 1
+            STATS["solver_s"] += dt
+            STATS[str(r)] += 1
+            if r == z3.sat:
+                return "sat", (s.model() if want_model else None), total
+            if r == z3.unsat:
+                return "unsat", None, total
+        if budget == timeout_ms:
+            break
+    return "unknown", None, total
 
 
 def solve_shrunk(assertions, timeout_ms=60000, quantified=False):
